@@ -15,7 +15,11 @@ PROPS = {
         "explanation": "Theorems (Tough/Props/C11.lean): the CanonicalFormatter state machine driven by serde_json's "
                        "call-back sequence computes the recursive specification `canon` for every value "
                        "(encode_canonical), refuses exactly the values with floats, is independent of member "
-                       "insertion order, and UTF-8 byte order is code-point order. Correspondence: the real "
+                       "insertion order, UTF-8 byte order is code-point order, and the bytes determine the value: two "
+                       "values with the same output have the same normal form, i.e. differ at most in string "
+                       "normalisation, member order and replaced duplicate members (encode_injective, via a direct "
+                       "rendering that is read back byte by byte: digits, UTF-8 as a prefix code, the two escapes, "
+                       "framing). Correspondence: the real "
                        "formatter is driven in-process through a Serialize wrapper with chosen member order; "
                        "bytes are compared with the compiled model and with `canon`.",
         "level_text": "Kernel-checked refinement theorem: for every JSON value the formatter state machine (model of "
@@ -23,8 +27,7 @@ PROPS = {
                       "order-independence and float refusal are theorems; the model is tied to the real formatter by "
                       "an exhaustive small-scope + random differential run on every check.",
         "level_note": "Trusted: Lean kernel; axioms propext/Classical.choice/Quot.sound; serde_json call-back order and "
-                      "Unicode NFC are modelled (NfcOk hypotheses); the correspondence harness and runner. Injectivity of "
-                      "the canonical encoding is not yet proved in Lean (checked differentially only).",
+                      "Unicode NFC are modelled (NfcOk hypotheses); the correspondence harness and runner.",
         "trusted": [
             "modelled, not verified: serde_json's Serializer (which Formatter call-backs it issues), "
             "unicode-normalization's NFC (abstract `nfc` with hypotheses NfcOk; table supplied per case)",
@@ -436,17 +439,20 @@ PROPS["C12"] = {
                    "conforming document with unknown members at any level that has a catch-all is verified against "
                    "exactly the canonical form its author signed (conforming_document_message_partial); what signatures "
                    "are checked against starts with the tag of the role the document is read AS, and the four tags differ "
-                   "(reser_tag, reser_roles_differ, tags_differ). Correspondence: parse / verify outcome and the bytes "
+                   "(reser_tag, reser_roles_differ, tags_differ); documents whose signatures are checked against the same "
+                   "bytes have the same content up to the normal form of C11 (signed_bytes_determine_content). "
+                   "Correspondence: parse / verify outcome and the bytes "
                    "tough checks signatures against (`canonical_form`) equal the model's `message`, for every mutant. "
                    "Property on the implementation: an accepted mutant has a parsed struct EQUAL (derived PartialEq) to "
                    "that of the unmutated document; formatting variants are accepted; a document presented as another "
                    "role is refused; conforming documents are accepted.",
     "level_text": "Kernel-checked schema normalisation theorems (conformance, role tags); differential run over every "
                   "single-point mutation of real signed documents, comparing the exact bytes signatures are checked against.",
-    "level_note": "PARTIAL: (1) 'a change that alters a used value makes the document unacceptable' needs, besides the "
-                  "model, that two different normalised values have different canonical bytes (injectivity of the OLPC "
-                  "canonical form) and that signatures are unforgeable; injectivity is not yet proved in Lean — on the "
-                  "implementation the statement is checked mutant by mutant with struct equality; (2) the conformance "
+    "level_note": "PARTIAL: (1) 'a change that alters a used value makes the document unacceptable' is proved up to the "
+                  "unforgeability of signatures: documents checked against the same bytes have the same content up to "
+                  "C11's normal form (signed_bytes_determine_content, using the injectivity of the canonical form); "
+                  "byte-level role separation (different tags => different bytes) is proved at the level of values only; "
+                  "on the implementation both are checked mutant by mutant with struct equality; (2) the conformance "
                   "theorem excludes unknown members inside `delegations` and `delegations.roles[]` (known findings, with "
                   "a Lean witness); (3) chrono's RFC 3339 re-spelling and key identifiers are oracles of the model "
                   "(`tnorm`, `keyOk`), supplied per case by the harness from chrono and `Key::key_id`.",
